@@ -107,6 +107,7 @@ INPUTS = [
     I('style', 'color:red', pp=1, validate=True),                                             # 33
     I('string', 'a{color:bogus}', pp=1, validate=True),                                       # 34
     I('string', 'a{width:1.5px;opacity:0.5;z-index:12}', pp=1),                               # 35
+    I('string', 'a{margin:x-fill 0;margin:9px 8px;width:9px}', pp=1),                         # 36
 ]
 NO_FETCH = [i for i, x in enumerate(INPUTS) if x['fetcher'] is None]
 FAULTY = [i for i, x in enumerate(INPUTS) if x['flags'] & 31]
@@ -162,7 +163,7 @@ COMBINES = [
     I('combine', 'a{color:red} /*c*/', pp=1, minify=False, resolveVariables=True),
 ]
 NPREFS = 4
-NPROFS = 3      # 2: a custom profile shadowing a token macro added and removed again = registry state 0
+NPROFS = 4      # 2, 3: a custom profile shadowing macros added (addProfile / addProfiles) and removed again = registry state 0
 
 
 def ensure_files():
@@ -235,6 +236,10 @@ def apply_profiles(k):
     elif k == 2:
         cssutils.profile.addProfile('x-c12', {'x-c12-len': '{num}px|{int}'}, {'num': r'[0-9]+', 'int': r'[0-9]'})
         cssutils.profile.removeProfile('x-c12')
+    elif k == 3:
+        # the bulk twin, shadowing a macro that a registered profile defines
+        cssutils.profile.addProfiles([('x-c12b', {'x-c12-m': '{margin-width}'}, {'margin-width': 'x-fill|{length}', 'num': r'[0-7]+'})])
+        cssutils.profile.removeProfile('x-c12b')
 
 
 # ------------------------------------------------------------------ implementation side
@@ -292,7 +297,7 @@ class Session:
         else:
             apply_profiles(val)
             self.profile = cssutils.profile
-            val = val % 2        # 2 leaves the registry as 0 does
+            val = val if val < 2 else 0        # 2 and 3 leave the registry as 0 does
         self.exp[what] = val
 
 
@@ -538,7 +543,7 @@ def model_triple(st, flags, mode):
         return [5, 0, input_attr('combine', st[1])[0]]
     if k == 'edit':
         return [6, int(text_attr(st)[True][0]), 0]
-    return [{'mode': 7, 'prefs': 8, 'profiles': 9}[st[1]], int(st[2]) % 2 if st[1] == 'profiles' else int(st[2]), 0]
+    return [{'mode': 7, 'prefs': 8, 'profiles': 9}[st[1]], (int(st[2]) if int(st[2]) < 2 else 0) if st[1] == 'profiles' else int(st[2]), 0]
 
 
 def check_tables(ctx):
@@ -645,7 +650,7 @@ def battery(nslots):
     b = [('mparse', i) for i in (0, 3, 10, 12, 13, 5, 17, 11, 20, 23)]
     b += [('new', 1), ('parse', nslots, 5), ('parse', nslots, 0), ('parse', nslots, 4), ('parse', nslots, 26)]
     b += [('query', 0), ('query', 4), ('construct', 0), ('construct', 3), ('construct', 7),
-          ('edit', 0), ('edit', 2), ('combine', 0), ('mparse', 35)]
+          ('edit', 0), ('edit', 2), ('combine', 0), ('mparse', 35), ('mparse', 36)]
     return b
 
 
@@ -912,6 +917,7 @@ def run(ctx):
                        '; the tables include %d generated sheet texts, media queries and value/declaration/sheet fragments each'
                        % (len(INPUTS), len(FAULTY), len(QUERIES), len(CONSTRUCTS), len(EDITS), len(COMBINES), len(battery(0)), ngen))
     tokenizer_macros_family(ctx)
+    registry_paths_family(ctx)
     histories = []
     # directed histories first: every single fault / construction followed by the battery, in both modes
     singles = ([('mparse', i) for i in NO_FETCH] + [('query', i) for i in range(N_STATIC['queries'])]
@@ -1023,6 +1029,47 @@ def results_only_inprocess(steps, mode0):
     impl.reset(bool(mode0))
     impl.fresh_profiles()
     return results_only([tuple(s) for s in steps], mode0)
+
+
+def registry_paths_family(ctx):
+    """the verdicts of a profile registry depend on what is registered, not on the calls that registered it (addProfile vs
+    addProfiles, one by one vs in bulk) nor on unrelated registrations made and undone in between.  Search only."""
+    import cssutils
+    from cssutils.profiles import Profiles
+    from harness import impl
+    X = ('x-c12c', {'x-c12-m': '{margin-width}'}, {'margin-width': 'x-fill|{length}'})
+    Y = ('x-c12d', {'x-c12-n': '{num}'}, {'num': r'[0-7]+'})
+    Z = ('x-c12e', {'x-c12-z': 'z'}, {})
+    battery = [('margin', 'x-fill 0'), ('margin', '9px 8px'), ('width', '9px'), ('width', '7px'), ('x-c12-m', 'x-fill'), ('x-c12-n', '9'), ('x-c12-n', '7'),
+               ('z-index', '9'), ('color', 'red')]
+
+    def verdicts(P):
+        return [P.validateWithProfile(n_, v_)[:2] for n_, v_ in battery]
+    builds = {
+        'addProfile X, Y': lambda P: (P.addProfile(*X), P.addProfile(*Y)),
+        'addProfiles [X, Y]': lambda P: P.addProfiles([X, Y]),
+        'addProfiles [X]; addProfiles [Y]': lambda P: (P.addProfiles([X]), P.addProfiles([Y])),
+        'addProfile Y, X': lambda P: (P.addProfile(*Y), P.addProfile(*X)),
+        'addProfiles [X, Y]; add and remove Z': lambda P: (P.addProfiles([X, Y]), P.addProfile(*Z), P.removeProfile(Z[0])),
+        'add Z; addProfiles [X, Y]; remove Z': lambda P: (P.addProfile(*Z), P.addProfiles([X, Y]), P.removeProfile(Z[0])),
+    }
+    ref = None
+    for name, build in builds.items():
+        impl.reset()
+        ctx.case(('registry-path', name))
+        try:
+            P = Profiles(log=cssutils.log)
+            build(P)
+            got = verdicts(P)
+        except Exception as e:  # noqa
+            ctx.violation('raises', {'family': 'registry-paths', 'build': name}, '%s: %s' % (type(e).__name__, e), KNOWN_PRED)
+            continue
+        if ref is None:
+            ref = (name, got)
+        elif got != ref[1]:
+            diff = [(battery[i], ref[1][i], got[i]) for i in range(len(battery)) if got[i] != ref[1][i]]
+            ctx.violation('history-dependent-result', {'family': 'registry-paths', 'build': name, 'reference_build': ref[0]},
+                          'same registered profiles, different verdicts (pair, reference, this build): %r' % diff, KNOWN_PRED)
 
 
 def tokenizer_macros_family(ctx):
